@@ -147,10 +147,11 @@ pub fn run(ctx: &Ctx) -> Report {
         for (a, b, use_) in alts {
             for chain in 0..=3usize {
                 for swap in [false, true] {
-                    for decl_first in [false, true] {
+                    for (decl_first, noemit) in [(false, false), (true, false), (false, true), (true, true)] {
                         let (x, y) = if swap { (b, a) } else { (a, b) };
                         let mut t = String::from("#bankdef hdr  { #addr 0x00, #size 0x04, #outp 0 }\n#bankdef body { #addr 0x10, #size 0x20, #outp 8 * 0x04 }\n#bank hdr\n");
-                        let decl = format!("msg = tgt > 0x15 ? {} : {}\n", x, y);
+                        // a constant kept out of the symbol listing is a constant like any other
+                        let decl = format!("{}msg = tgt > 0x15 ? {} : {}\n", if noemit { "#const(noemit) " } else { "" }, x, y);
                         t += use_;
                         t += "\n#bank body\n";
                         if decl_first {
